@@ -498,6 +498,9 @@ class ControllerAdapter(Adapter):
             for t in np.sort(rng.choice(np.arange(1, 20) * 0.25, int(rng.integers(1, 5)), replace=False)):
                 rows.append({'ID': 7, 'Time': float(t), 'Observable': 'obs%d' % o, 'Value': float(rng.uniform(0.5, 3.0))})
         df = pd.DataFrame(rows)
+        if rng.random() < 0.5:
+            # a frame glued from pieces: row labels repeat / are not 0..n-1
+            df.index = rng.integers(0, 3, len(df))
         self.times = [0.5, 1.5]
 
         def build():
@@ -748,7 +751,7 @@ def exhaustive(ctx, chi):
 
 def run(ctx):
     chi = core.import_chi()
-    n = 480 if ctx.tier == 'quick' else 9600
+    n = 960 if ctx.tier == 'quick' else 9600
     for i in range(n):
         rng = ctx.sub_rng(i)
         A = ADAPTERS[i % len(ADAPTERS)]
